@@ -238,6 +238,18 @@ def expected(st, kind):
     return e
 
 
+def differs(st, kind, exp, got):
+    """fields in which the face does not conform to model state st.  The named deviations widen: with
+    DevRunningAfterFailedOpen repaired the face says running = False while no transport is open, with DevErrorTwice
+    repaired the second error_received is swallowed."""
+    d = {k for k in exp if exp[k] != got.get(k)}
+    if kind == 'udp' and st['running'] and not st['topen'] and got.get('running') is False:
+        d.discard('running')
+    if exp['last'] == 'InvalidStateError' and got.get('last') == 'ok':
+        d.discard('last')
+    return sorted(d)
+
+
 def cfg(name, kind, quick, invs=INVS, props=PROPS, witnesses=True):
     p = os.path.join(tlc.BUILD, name + '.cfg')
     consts = {'Kind': '"%s"' % kind}
@@ -251,13 +263,13 @@ def replay_path(kind, g, init, path):
     run = FaceRun(kind)
     try:
         exp, got = expected(g.state[init], kind), run.project()
-        if exp != got:
-            return 0, ('Init', [], exp, got, [])
+        if differs(g.state[init], kind, exp, got):
+            return 0, ('Init', [], exp, got, [], differs(g.state[init], kind, exp, got))
         for i, (act, args, dst) in enumerate(path):
             run.apply(act, list(args))
             exp, got = expected(g.state[dst], kind), run.project()
-            if exp != got or run.problems:
-                return i + 1, (act, list(args), exp, got, list(run.problems))
+            if differs(g.state[dst], kind, exp, got) or run.problems:
+                return i + 1, (act, list(args), exp, got, list(run.problems), differs(g.state[dst], kind, exp, got))
         return len(path), None
     finally:
         run.close()
@@ -296,8 +308,7 @@ def check(ctx):
             if len(path) >= 5 and 'OpenOk' in acts and 'Shutdown' in acts:
                 ctx.nt(['face', kind, [[a, list(x)] for a, x, _ in path]])
             if bad:
-                act, args, exp, got, problems = bad
-                diffs = sorted(k for k in exp if exp[k] != got.get(k))
+                act, args, exp, got, problems, diffs = bad
                 sig = 'X03/%s/%s%s/%s' % (face_class(kind), act, ('[%s]' % args[0]) if args else '',
                                           '+'.join('%s:%s->%s' % (k, exp[k], got.get(k)) for k in diffs) or 'internal-error')
                 ctx.violation(sig, 'face B: after %s%s the model has %s, the face %s %s' % (act, args, json.dumps(exp), json.dumps(got), problems),
